@@ -10,9 +10,10 @@ let variant_of = function
   | "repaired" | "" -> repaired
   | "defective" -> defective
   | s ->
-    (* "def:RAD" = the listed defects present: R restore unvalidated, A reverse Add appends, D duplicate addresses *)
+    (* "def:RADS" = the listed defects present: R restore unvalidated, A reverse Add appends, D duplicate
+       addresses, S synced-activation rollback leaves reverse entries *)
     let has c = String.length s > 4 && String.contains (String.sub s 4 (String.length s - 4)) c in
-    { v_validate = not (has 'R'); v_replace = not (has 'A'); v_dedup = not (has 'D') }
+    { v_validate = not (has 'R'); v_replace = not (has 'A'); v_dedup = not (has 'D'); v_rollback = not (has 'S') }
 
 let hex_of_n (x : n) : string =
   match x with
@@ -143,11 +144,17 @@ let run_case (v : variant) (line : string) (impl : string option) : string =
               match split_on tok ":" with
               | ["A"; sid; k; ok] ->
                 let (s', o) = cstep v c !s (CActivate (nn sid, nn k, ok = "1", obs i)) in s := s'; emit (show_out_dp o)
-              | ["S"; sid; k; mk; ip; a; b] ->
-                let (s', o) = cstep v c !s (CSynced (nn sid, nn k, nn mk, blk ip a b, obs i)) in s := s'; emit (show_out_dp o)
-              | ["X"; sid; k] -> let (s', _) = cstep v c !s (CRelease (nn sid, nn k)) in s := s'; emit "ok"
-              | ["P"; sid; mk; ip; a; b] ->
-                let (s', _) = cstep v c !s (CRestorePresent (nn sid, nn mk, blk ip a b)) in s := s'; emit "ok"
+              | "S" :: sid :: k :: mk :: ip :: a :: b :: rest ->
+                let ok = (match rest with [x] -> x = "1" | _ -> true) in
+                let (s', o) = cstep v c !s (CSynced (nn sid, nn k, nn mk, blk ip a b, ok, obs i)) in s := s'; emit (show_out_dp o)
+              | "X" :: sid :: k :: rest ->
+                let pat = (match rest with [x] -> x | _ -> "") in
+                let dl = List.init (String.length pat) (fun j -> pat.[j] = 'o' || pat.[j] = 'O') in
+                let (s', _) = cstep v c !s (CRelease (nn sid, nn k, dl)) in s := s'; emit "ok"
+              | "P" :: sid :: mk :: ip :: a :: b :: rest ->
+                let bulk = (match rest with [x] -> nn x | _ -> N0) in
+                let (s', _) = cstep v c !s (CRestorePresent (nn sid, nn mk, blk ip a b, bulk)) in s := s'; emit "ok"
+              | ["C"] -> let (s', _) = cstep v c !s CComplete in s := s'; emit "ok"
               | ["D"; _; mk; ip; a; b] ->
                 let (s', _) = cstep v c !s (CRestoreDegraded (nn mk, blk ip a b)) in s := s'; emit "ok"
               | ["d"] ->
@@ -160,14 +167,16 @@ let run_case (v : variant) (line : string) (impl : string option) : string =
           end;
           if !outs = [] then "empty" else String.concat " ; " (List.rev !outs)))
 
-let all_variants = ["repaired"; "def:R"; "def:A"; "def:D"; "def:RA"; "def:RD"; "def:AD"; "defective"]
 let () =
   let lines = read_lines Sys.argv.(1) in
   let impl = if Array.length Sys.argv > 2 && Sys.argv.(2) <> "-" then Some (Array.of_list (read_lines Sys.argv.(2))) else None in
   let vname = if Array.length Sys.argv > 3 then Sys.argv.(3) else "repaired" in
+  (* "all=v1,v2,...": every listed variant's answer on one line (used by props/C15.py to describe a mismatch) *)
+  let multi = if String.length vname > 4 && String.sub vname 0 4 = "all=" then
+      Some (String.split_on_char ',' (String.sub vname 4 (String.length vname - 4))) else None in
   List.iteri (fun i line ->
     let il = match impl with Some a when i < Array.length a -> Some a.(i) | _ -> None in
     let one v = try run_case (variant_of v) line il with e -> "MODELERROR " ^ Printexc.to_string e in
-    (* "all": every variant's answer on one line (used by props/C15.py to describe a mismatch) *)
-    if vname = "all" then print_endline (String.concat " ### " (List.map one all_variants))
-    else print_endline (one vname)) lines
+    match multi with
+    | Some vs -> print_endline (String.concat " ### " (List.map one vs))
+    | None -> print_endline (one vname)) lines
